@@ -60,8 +60,14 @@ class VerifyMixin:
                         out.append((NORMAL, s3))
                     elif bo[0] == 'raise':
                         out.append((('raise_consumer', bo[1]), s3))
+                    elif bo[0] == 'return':
+                        # the consumer returns from inside the loop: the generator is abandoned at this yield (its enclosing
+                        # `finally` blocks run on the way out, as on generator close)
+                        out.append((('return_consumer', bo[1]), s3))
+                    elif bo[0] == 'break':
+                        out.append((('break_consumer', None), s3))
                     else:
-                        raise EngineError('break/return inside a loop over a fused generator')
+                        raise EngineError('unexpected outcome inside a loop over a fused generator')
         return out
 
     def verify_contract(self, c):
